@@ -199,6 +199,8 @@ def pressure_resultant(vk, cfg):
     rg = OpaqueRegion(vk, cells, dim, nq)
     nc = cells.shape[0]
     rg.normals = vk.reals("N", (3, nq, nc), near=np.broadcast_to(np.array([0.0, 1.0, 0.0]).reshape(3, 1, 1), (3, nq, nc)), spread=0.3)
+    if dim == 2:
+        rg.normals[2] = 0 * rg.normals[2]  # 2D boundary regions pad the normal with a zero third component (ensure_3d)
     u = vk.reals("u", (rg.mesh.npoints, dim), near=0.0, spread=0.05)
     cls = {"3d": fem.Field, "planestrain": fem.FieldPlaneStrain, "axisymmetric": fem.FieldAxisymmetric}[kind]
     f = cls(rg, dim=dim, values=u)
@@ -223,7 +225,11 @@ def pressure_resultant(vk, cfg):
     cof = np.swapaxes(symnp.adj_ref(F), 0, 1)  # J F^-T, polynomial (spec side)
     area = ref_einsum("iJqc,Jqc,qc,qc->i", cof, rg.normals, w, np.sum(rg.h, axis=0))[:dim]
 
+    from vk.stubs import StubAreaChange
+
     def resultant(item, **kw):
+        if vk.sym:  # callee contract of AreaChange (C03 `kinematics`), polynomial; the native run uses the real one
+            item._area_change = StubAreaChange()
         r = np.asarray(dense(vk, lambda: item.assemble.vector(**kw))).reshape(-1, dim)
         return np.sum(r, axis=0)
 
